@@ -28,8 +28,25 @@ def main() -> None:
             rc = mod.main(a.tier)
     except SystemExit:
         raise
-    except BaseException:  # noqa: BLE001
+    except BaseException as ex:  # noqa: BLE001
         traceback.print_exc()
+        # An exception that escapes a driver is a machinery failure -- unless it was RAISED INSIDE pyjelly on an input the driver
+        # considers ordinary (every such call that may legitimately raise is guarded in the drivers, and on the unchanged tree none
+        # escapes): then the code under test failed where the property says it must work.
+        tb = traceback.extract_tb(ex.__traceback__)
+        repo = os.path.realpath(os.environ.get("VERIF_REPO", "/repo")) + os.sep + "pyjelly" + os.sep
+        if tb and os.path.realpath(tb[-1].filename).startswith(repo) and pid.startswith("C") and not isinstance(ex, (KeyboardInterrupt, MemoryError)):
+            import json  # noqa: PLC0415
+
+            d = os.path.join(os.path.dirname(os.path.dirname(os.path.abspath(__file__))), "replays", pid)
+            os.makedirs(d, exist_ok=True)
+            path = os.path.join(d, "unexpected-exception.json")
+            with open(path, "w") as f:
+                json.dump({"property": pid, "what": "unexpected exception raised inside pyjelly", "exception": repr(ex),
+                           "traceback": traceback.format_exception(type(ex), ex, ex.__traceback__)[-12:]}, f, indent=1)
+            print(f"VIOLATION property={pid} replay={path}")
+            print(f"  what: pyjelly raised {type(ex).__name__} ({str(ex)[:120]}) at {tb[-1].filename}:{tb[-1].lineno} on an input the check treats as ordinary")
+            sys.exit(1)
         print(f"MACHINERY-FAILURE: driver for {pid} crashed")
         sys.exit(2)
     sys.stdout.flush()
